@@ -74,12 +74,22 @@ def gen_history(rng, space=False, wrap=False):
     pool = rng.sample(range(5), nres)
     if space:
         pool[0] = 5
+    # resource names 0 ("a") and 3 ("a0") are a proper prefix of one another: deleting one must not touch the other's records
+    prefix_pair = (not space) and rng.random() < 0.2
+    if prefix_pair:
+        pool = [0, 3] + [x for x in pool if x not in (0, 3)][:1]
     ncli = rng.choice([1, 2, 3])
     exists, obs = set(), {}
     ev = []
     n = rng.choice([3, 4, 5, 6, 6, 7, 8])
     # most histories start by creating something and observing it, otherwise nothing interesting happens
     steps = 0
+    if prefix_pair:
+        a, b = rng.choice([(0, 3), (3, 0)])
+        ev += ["c0", "c3", "a0.%d.1" % b, "n%d" % b, "d%d" % a]
+        exists |= {b}; obs[(0, b)] = 1
+        if rng.random() < 0.5:
+            ev.append("r")
     while steps < n and len(ev) < 14:
         steps += 1
         r = rng.random()
